@@ -22,7 +22,10 @@
 from __future__ import annotations
 
 from multiprocessing import RLock
+from multiprocessing import Value
+from multiprocessing.context import get_spawning_popen
 from typing import TYPE_CHECKING
+from typing import Any
 from typing import Literal
 from typing import cast
 from typing import overload
@@ -77,6 +80,37 @@ class MemoryFullCache(BaseFullCache):
             self.__data = get_multi_processing_manager().dict()
         else:
             self.__data = {}
+
+    def __getstate__(self) -> dict[str, Any]:
+        if get_spawning_popen() is not None:
+            # The cache is passed to a child process at its creation:
+            # the locks and the shared memory are inherited.
+            return self.__dict__
+
+        # The locks and the shared memory objects cannot be pickled:
+        # save the values and create new ones when unpickling.
+        state = self.__dict__.copy()
+        del state["lock"]
+        del state["lock_hashes"]
+        state["_hashes_to_indices"] = dict(self._hashes_to_indices)
+        state["_max_index"] = self._max_index.value
+        state["_last_accessed_index"] = self._last_accessed_index.value
+        state["_MemoryFullCache__data"] = dict(self.__data)
+        return state
+
+    def __setstate__(self, state: dict[str, Any]) -> None:
+        self.__dict__.update(state)
+        if "lock" in state:
+            return
+
+        manager = get_multi_processing_manager()
+        self.lock_hashes = RLock()
+        self._hashes_to_indices = manager.dict(state["_hashes_to_indices"])
+        self._max_index = Value("i", state["_max_index"])
+        self._last_accessed_index = Value("i", state["_last_accessed_index"])
+        self.lock = self._set_lock()
+        if self.__is_memory_shared:
+            self.__data = manager.dict(self.__data)
 
     def _copy_empty_cache(self) -> MemoryFullCache:
         return MemoryFullCache(self._tolerance, self.name, self.__is_memory_shared)
